@@ -3,6 +3,7 @@ package world
 import (
 	"crypto/ecdsa"
 	"crypto/rand"
+	"crypto/sha256"
 	"crypto/x509"
 	"crypto/x509/pkix"
 	"encoding/binary"
@@ -40,14 +41,16 @@ type Level struct {
 	// SgxN / TdxN shape the component lists: 0 = all sixteen, -1 = member omitted, -2 = empty list,
 	// k > 0 = the first k components (beyond sixteen the last one is repeated).
 	SgxN, TdxN int
-	NoStatus   bool // omit the tcbStatus member
+	NoStatus   bool   // omit the tcbStatus member
+	TcbDate    string // "" = the usual RFC 3339 date, "<omit>" = no tcbDate member, anything else verbatim
 }
 
 // IsvLevel is one isvsvn-keyed level (QE identity, TDX module identity).
 type IsvLevel struct {
 	Isv      uint32
 	Status   string
-	NoStatus bool // omit the tcbStatus member
+	NoStatus bool   // omit the tcbStatus member
+	TcbDate  string // see Level.TcbDate
 }
 
 // ModIdent is one TDX module identity.
@@ -93,6 +96,16 @@ func comps(name string, v [16]byte, n int) string {
 	return `"` + name + `":[` + strings.Join(s, ",") + "],"
 }
 
+func dateMember(d string) string {
+	switch d {
+	case "":
+		return `"tcbDate":"2023-02-15T00:00:00Z"`
+	case "<omit>":
+		return `"tcbDateOmitted":true`
+	}
+	return fmt.Sprintf(`"tcbDate":%q`, d)
+}
+
 func statusMember(st string, omit bool) string {
 	if omit {
 		return ""
@@ -103,7 +116,7 @@ func statusMember(st string, omit bool) string {
 func isvLevels(ls []IsvLevel) string {
 	var out []string
 	for _, l := range ls {
-		out = append(out, fmt.Sprintf(`{"tcb":{"isvsvn":%d},"tcbDate":"2023-02-15T00:00:00Z"%s}`, l.Isv, statusMember(l.Status, l.NoStatus)))
+		out = append(out, fmt.Sprintf(`{"tcb":{"isvsvn":%d},%s%s}`, l.Isv, dateMember(l.TcbDate), statusMember(l.Status, l.NoStatus)))
 	}
 	return "[" + strings.Join(out, ",") + "]"
 }
@@ -112,7 +125,7 @@ func isvLevels(ls []IsvLevel) string {
 func (s *TcbInfoSpec) JSON() string {
 	var ls []string
 	for _, l := range s.Levels {
-		ls = append(ls, fmt.Sprintf(`{"tcb":{%s%s"pcesvn":%d},"tcbDate":"2023-02-15T00:00:00Z"%s}`, comps("sgxtcbcomponents", l.Sgx, l.SgxN), comps("tdxtcbcomponents", l.Tdx, l.TdxN), l.Pce, statusMember(l.Status, l.NoStatus)))
+		ls = append(ls, fmt.Sprintf(`{"tcb":{%s%s"pcesvn":%d},%s%s}`, comps("sgxtcbcomponents", l.Sgx, l.SgxN), comps("tdxtcbcomponents", l.Tdx, l.TdxN), l.Pce, dateMember(l.TcbDate), statusMember(l.Status, l.NoStatus)))
 	}
 	mods := ""
 	if !s.OmitMods {
@@ -240,6 +253,32 @@ func MkCRL(issuer *Cert, this, next time.Time, revoked []*big.Int) []byte {
 		es = append(es, x509.RevocationListEntry{SerialNumber: s, RevocationTime: this, ReasonCode: rc})
 	}
 	return MkCRLEntries(issuer, this, next, es)
+}
+
+// MkCRLBare assembles a v2 CRL WITHOUT any extension (no cRLNumber, no authorityKeyIdentifier) by hand; crypto/x509 cannot
+// create one but parses it, and such CRLs exist. Revocation dates are thisUpdate.
+func MkCRLBare(issuer *Cert, this, next time.Time, revoked []*big.Int) []byte {
+	utc := func(t time.Time) []byte { return TLV(0x17, []byte(t.UTC().Format("060102150405Z"))) }
+	alg := Seq([]byte{0x06, 0x08, 0x2a, 0x86, 0x48, 0xce, 0x3d, 0x04, 0x03, 0x02}) // ecdsa-with-SHA256
+	parts := [][]byte{TLV(0x02, []byte{1}), alg, issuer.Cert.RawSubject, utc(this), utc(next)}
+	if len(revoked) > 0 {
+		var es [][]byte
+		for _, sn := range revoked {
+			b := sn.Bytes()
+			if len(b) == 0 || b[0]&0x80 != 0 {
+				b = append([]byte{0}, b...)
+			}
+			es = append(es, Seq(TLV(0x02, b), utc(this)))
+		}
+		parts = append(parts, Seq(es...))
+	}
+	tbs := Seq(parts...)
+	h := sha256.Sum256(tbs)
+	sig, err := ecdsa.SignASN1(rand.Reader, issuer.Key, h[:])
+	if err != nil {
+		panic(err)
+	}
+	return Seq(tbs, alg, TLV(0x03, append([]byte{0}, sig...)))
 }
 
 // MkCRLLegacy creates a CRL through the deprecated RevokedCertificates field, which also takes entries that the newer field
